@@ -4,6 +4,6 @@ import "verif/harness/props/c01"
 
 func init() {
 	registry["C01"] = entry{run: c01.Run, level: "exploration",
-		rule: "cases = generated scenarios on a real in-process broker: 2-8 v3.1/v3.1.1/v5 clients with random subscription tables (filters with +/#/empty levels/$-topics, QoS x NoLocal x RAP x subscription id, re-subscription), 1-4 concurrent publishers (MQTT connections or the Publisher API) sending uniquely tagged messages, both delivery modes; every reception is compared with a reference delivery model, completeness decided by per-publisher sentinels. Non-trivial = more copies expected than the sentinels alone; distinct by scenario.",
+		rule: "cases = generated scenarios on a real in-process broker: 2-8 v3.1/v3.1.1/v5 clients with random subscription tables (filters with +/#/empty levels/$-topics, QoS x NoLocal x RAP x subscription id, re-subscription), 1-4 concurrent publishers (MQTT connections or the Publisher API) sending uniquely tagged messages, both delivery modes; every reception is compared with a reference delivery model, completeness decided by per-publisher sentinels. Non-trivial = more copies expected than the sentinels alone; distinct by scenario. Publishers also use two topic aliases with re-binding; some scenarios add a burst publisher (QoS 0 PUBLISH packets + DISCONNECT in one write, then close).",
 		assumptions: []string{"mqttx codec and refmodel.Match are correct", "TCP loopback and the broker's per-session queue are FIFO (used for the sentinel barrier; a violation of it is itself reported as an ordering/missing violation)", "no drop condition is configured (queue 20000, no expiry)"}}
 }
